@@ -73,6 +73,13 @@ def corr_framework(n_quick, n_thorough):
     return run
 
 
+def corr_replay(n_quick, n_thorough):
+    def run(tier, seed):
+        import corr_replay as C
+        return C.run(seed, n_quick if tier == 'quick' else n_thorough)
+    return run
+
+
 CONV_FUNCS = ['normalize_bbox', 'denormalize_bbox', 'convert_bbox_to_dicaugment', 'convert_bbox_from_dicaugment',
               'check_bbox', 'convert_keypoint_to_dicaugment', 'convert_keypoint_from_dicaugment', 'check_keypoint',
               'angle_to_2pi_range', 'convert_bboxes_to_dicaugment', 'convert_bboxes_from_dicaugment',
@@ -302,6 +309,25 @@ PROPS['C16'] = {
                   'resampling / transposing / cropping / padding / flipping / pixel-level steps on non-cubic volumes with '
                   'anisotropic spacing are explored step by step against the measured image factor.',
     'level_note': 'Trusted: Coq kernel, translator (header idioms), classtab extractor, exact-rational model of float64.',
+}
+
+PROPS['C13'] = {
+    'requires': [], 'corr': corr_multi(corr_replay(150, 3000), corr_framework(60, 1500), corr_classtab()), 'search': 'C13',
+    'trusted_base': CLASSTAB_TRUSTED + [
+        'coq/model/Framework.v and coq/model/Replay.v are hand-written models of the scheduling layer and of record / '
+        'restore / replay; tied to the code by harness/corr_framework.py and harness/corr_replay.py (random trees over '
+        'recording leaves: fired trace, applied flags, leaves applied by the replay, entropy read during replay)',
+        'leaf-level fidelity rests on "parameters are drawn in get_params* only" (class table, helper functions followed '
+        'transitively by bare name) and on apply being a function of (params, inputs)'],
+    'assumptions': ['leaves of the tree are distinct objects (the record is keyed by id())'],
+    'level_text': 'Theorems on the scheduling / replay models: for every SomeOf-free tree (Compose, OneOf, OneOrOther, '
+                  'Sequential, any nesting), draw list and leaf semantics the replay applies exactly the fired leaves in the '
+                  'recorded order and returns the recorded data, independently of any later draw; the full statement is refuted '
+                  'for SomeOf by a witness (known finding); the data after a call is determined by the applied leaves; a leaf is '
+                  'marked applied iff it fired. Class table theorem: every class draws in get_params* only, except NPSNoise and '
+                  'PadIfNeeded (known findings). Bit-identity per class x documented argument, other volume of the same shape, '
+                  'and random trees are explored on the implementation.',
+    'level_note': 'Trusted: Coq kernel, hand-written models (correspondence), classtab extractor.',
 }
 
 NOT_CLAIMED = {}
